@@ -31,6 +31,9 @@ func minInt(a, b int) int {
 
 func NewValuesByString(m []meta.Leafable, objs ...string) ([]val.Value, error) {
 	var err error
+	if len(objs) < len(m) {
+		return nil, fmt.Errorf("%w. %d values given for %d leafs", fc.BadRequestError, len(objs), len(m))
+	}
 	l := minInt(len(m), len(objs))
 	vals := make([]val.Value, len(m))
 	for i := 0; i < l; i++ {
